@@ -72,6 +72,40 @@ FIRST_MISSED = {  # caught only after the extension named here (recorded while t
  "C10-m8": "not caught by C10 — a journal defect (records with an empty message become unreadable, `reset HEAD@{n}` counts wrongly) caught by C11",
  "C12-m7": "not caught by C12 — the local-over-global clause is checked by C20, which catches it (a `config` call that repeats the value in effect in the other scope is dropped)",
  "C12-m8": "C12 CLI cases are now short histories of commits made under different offsets and read by ONE `log` process (the API layer saw it, but a per-case replay in a fresh process cannot reproduce cross-commit state)",
+ # round 5 (m9/m10); the agents also hunted for violations in the unchanged tree, see Appendix C from 792f566 on
+ "C01-m9": "not caught by C01 (needs a tree of a page or more whose first child is such a tree, read by one process); caught by C05 since its crafted staging areas hold two big directories, one inside the other",
+ "C01-m10": "not caught by C01 (needs one blob above 1 MiB staged under two paths and checked out twice by one `reset --hard`); caught by C08 since the reset profile writes big twin contents",
+ "C02-m9": "`commit` with the message of an earlier commit after a `reset --soft` to its parent (a byte-identical commit object within the same second)",
+ "C03-m9": "neutralised by ba727ef (branch names with control characters are refused): its demonstration passes on the repaired tree",
+ "C03-m10": "neutralised by 9186634 (config refuses values with line breaks): its demonstration passes on the repaired tree; C20 still flags the escaping it adds",
+ "C04-m9": "NOT caught: needs two names of one inode (a hard link) in the working tree; links are outside the generated domain (DESIGN 8.4)",
+ "C04-m10": "argument spelled with a detour through the metadata directory (`.goit/../p`)",
+ "C05-m9": "path components of 120 … 506 bytes in crafted staging areas (mode + name = 256 bytes)",
+ "C05-m10": "not caught by C05; zero-padded reflog positions (`HEAD@{08}`, `HEAD@{010}`) in the reset generator let C08 and C11 catch it",
+ "C06-m9": "NOT caught in the quick tier: needs a tracked FILE named like a `name/` ignore entry, deleted, `add`-ed again, with a sibling whose name extends it sorting next in the staging area",
+ "C06-m10": "NOT caught on purpose: it only acts on a staging area that holds a name both as a file and as a directory, about which the oracles are silent (DESIGN 8.4)",
+ "C07-m9": "neutralised by 792f566 (the new-file test no longer goes through the tree lookup it changes)",
+ "C07-m10": "`.goitignore` rewritten later (`ignore-more`) in the diff profile; was caught by C13 before",
+ "C08-m9": "NOT caught: needs goit to run from a sub-directory, outside the generated domain (DESIGN 8.4)",
+ "C08-m10": "`.goitignore` rewritten later in the reset profile; patch carried over (patch.ported.diff)",
+ "C09-m9": "`.goitignore` rewritten later in the restore profile",
+ "C10-m9": "not caught by C10; zero-padded reflog positions let C08 and C11 catch it; patch carried over",
+ "C10-m10": "branch names that are the 40-digit id of a stored commit or tree",
+ "C11-m9": "neutralised by ba727ef (its trigger is a branch name with a line break)",
+ "C11-m10": "zero-padded reflog positions; patch carried over",
+ "C12-m9": "NOT caught: needs a zone with a transition between the commit and the reading `log` process; the generated zones have one fixed offset each",
+ "C12-m10": "names in quotes; was caught by C20 before",
+ "C13-m9": "caught as built (a last report line that ends in a blank); patch carried over",
+ "C13-m10": "a second non-ASCII directory entry that is valid UTF-8 (`é-old/`), so that entry and path differ in validity",
+ "C14-m9": "NOT caught: needs goit to run from a sub-directory that holds a regular file named `.goit`; patch carried over",
+ "C14-m10": "names that contain the e-mail address",
+ "C15-m9": "after every crash point a new file is added and committed in a clone and the result must be connected; the corpus stages nested new directories (its demonstration is tied to the former name of the object temp file and exits 2)",
+ "C16-m10": "fault corpus: creating branches whose names sort before the existing ones, with three branches present",
+ "C17-m9": "same extension as C13-m10",
+ "C17-m10": "NOT caught in the quick tier: two-part extension `*.tar.gz` with a `.gz` sibling tested first in the same directory (the names are generated since; detection is a matter of chance)",
+ "C18-m10": "NOT caught: needs an argument that names an existing file OUTSIDE the working tree, outside the generated domain (Appendix B, 3)",
+ "C19-m10": "a fourth kind of damage in the C19 CLI layer: two bytes inserted (a branch file that holds an id followed by further hex digits)",
+ "C20-m9": "names with a backslash followed by `t`, `n`, `r`",
  "C10-m6": "the violation was found but could not be replayed (the step carried a commit id of the generating run): steps now name commits symbolically (`@commit#n`)",
 }
 print("### D.1 Changes written by independent sub-agents (`seeded/<ID>-mN/`)\n")
